@@ -440,7 +440,7 @@ def api_bodies(ctx):
     return out
 
 
-@rule("PANIC-INVENTORY", ["C05", "C07"], floor=150)
+@rule("PANIC-INVENTORY", ["C05", "C07", "C14"], floor=150)
 def panic_inventory(ctx):
     """Every panic-capable site reachable from the public API (bounds checks, overflow asserts, unwrap/expect,
     Index calls, Vec::remove/insert, explicit panics) is discharged by a dominating guard on every path, or is
@@ -453,7 +453,12 @@ def panic_inventory(ctx):
     ctor = ctx.cg.reachable(["regex::Regex::new"])
 
     def scoped(i, path):
-        i.props = ["C05", "C07"] if ctx.creator_root(path) in ctor or path in ctor else ["C05"]
+        root = ctx.creator_root(path)
+        i.props = ["C05", "C07"] if root in ctor or path in ctor else ["C05"]
+        if root == "re_compiler::ReCompiler::compile":
+            # compile() holds the flag-x pre-pass: a panic there is a pattern that is neither accepted nor rejected
+            # "like the pattern with its whitespace deleted" (C14)
+            i.props = i.props + ["C14"]
         return i
     for b in api_bodies(ctx):
         sc = scan(ctx, b)
